@@ -354,5 +354,4 @@ def registry_uid():
 
 
 def _int_to_str(i):
-    z3 = z()
-    return z3.If(i >= 0, z3.IntToStr(i), z3.Concat(z3.StringVal('-'), z3.IntToStr(-i)))
+    return T().int_str(i)
